@@ -306,7 +306,9 @@ pub fn build(cfg: Cfg, rows: &[RowIng], fresh: &[RowIng]) -> Case {
         layout: cfg.layout,
         kernel,
         task,
-        eps: r32(cfg.eps, single),
+        // a fractional-degree kernel is not positive semi-definite; SMO then needs millions of iterations for
+        // eps = 1e-5 (cost), so these cases use the coarser stopping tolerance
+        eps: r32(if fractional { 1e-3 } else { cfg.eps }, single),
         shrinking: cfg.shrinking,
         single,
         x,
